@@ -159,7 +159,73 @@ func (g *condGen) body(fn string, p [2]string, hasG bool) []Stmt {
 	if g.draw(3, "late-mutate") == 0 {
 		out = append(out, Assign{Target: sx, Value: Binary{Op: "+", L: sx, R: I(1)}})
 	}
+
+	// inner function declarations and closures (with and without own conditions,
+	// called or not), placed anywhere among the other statements
+	early := ret
+	nInner := []int{0, 0, 1, 1, 2}[g.draw(5, "inner-functions")]
+	for i := 0; i < nInner; i++ {
+		name := fmt.Sprintf("h%d", i)
+		d := &FuncDecl{Name: name, Owner: "inner", Ret: Int, Params: []Param{{Label: "_", Name: "v", T: Int}},
+			Body: []Stmt{Return{E: Binary{Op: "+", L: V("v"), R: I(int64(1 + g.draw(3, "inner-add")))}}}}
+		switch g.draw(4, "inner-conds") {
+		case 1:
+			d.Pre = []Condition{{Test: Binary{Op: "!=", L: V("v"), R: g.konst()}, Msg: name + " pre"}}
+		case 2:
+			d.Post = []Condition{{Test: Binary{Op: "!=", L: V("result"), R: g.konst()}, Msg: name + " post"}}
+		case 3:
+			d.Pre = []Condition{{Test: Binary{Op: "<", L: V("v"), R: I(40)}, Msg: name + " pre"}}
+			d.Post = []Condition{{Test: Binary{Op: "!=", L: V("result"), R: Binary{Op: "-", L: V("v"), R: I(1)}}, Msg: name + " post"}}
+		}
+		var st Stmt = FuncStmt{Decl: d}
+		if g.draw(2, "closure") == 0 {
+			st = Let{Name: name, Init: Closure{Decl: d}}
+		}
+		at := g.draw(len(out)+1, "inner-at")
+		out = append(out[:at:at], append([]Stmt{st}, out[at:]...)...)
+		switch g.draw(3, "inner-called") {
+		case 0:
+			ret = Binary{Op: "+", L: ret, R: CallVal{F: V(name), Args: []Arg{{E: V(p[g.draw(2, "inner-arg")])}}}}
+		case 1:
+			early = Binary{Op: "-", L: early, R: CallVal{F: V(name), Args: []Arg{{E: V(p[g.draw(2, "inner-arg")])}}}}
+		}
+	}
+	// explicit early return (after the inner functions it may use)
+	if g.draw(2, "early-return") == 0 {
+		out = append(out, If{Cond: Binary{Op: ">", L: V(p[g.draw(2, "early-param")]), R: I(int64(2 + g.draw(6, "early-bound")))},
+			Then: []Stmt{Return{E: early}}})
+		if g.draw(3, "after-early") == 0 {
+			out = append(out, Assign{Target: sx, Value: Binary{Op: "+", L: sx, R: I(2)}})
+		}
+	}
 	return append(out, Return{E: ret})
+}
+
+// hasNestedFunction reports whether a body declares an inner function or closure.
+func hasNestedFunction(ss []Stmt) bool {
+	for _, s := range ss {
+		switch s := s.(type) {
+		case FuncStmt:
+			return true
+		case Let:
+			if _, ok := s.Init.(Closure); ok {
+				return true
+			}
+		case If:
+			if hasNestedFunction(s.Then) || hasNestedFunction(s.Else) {
+				return true
+			}
+		}
+	}
+	return false
+}
+
+// ImplHasNestedFunction: the implementation of fn that T executes (own or
+// inherited default) declares an inner function or closure in its body.
+func (cp *CondProgram) ImplHasNestedFunction(fn string) bool {
+	m := NewMachine(cp.Decls)
+	impl, _ := m.resolveMethod(cp.Decls.Comp("T"), fn)
+	return impl != nil && hasNestedFunction(impl.Body)
 }
 
 var condParamNames = [][2]string{{"a", "b"}, {"a", "b"}, {"p", "q"}, {"b", "a"}, {"u", "v"}}
